@@ -4,11 +4,15 @@
    Gen/GenC19Spread.v.  The equality with the sum of the chain's per-state rates over the default region of a CTMCCredit
    grid is a theorem for d = 1 (C19_rate_equals_theta_credit_1d) and d = 2 (C19_rate_equals_theta_2d: C01's 2-d chain model on
    a pair of C13's credit axes, rates = the generated rectangle mass of C12 over Q) and d = 3 (C19_rate_equals_theta_3d: C01's 3-d chain
-   model Model/Chain3d.v on a triple of credit axes, rates = the generated box mass mass_3d of C12 over Q); refined credit grids:
-   C19_refined_gap_1d (refine^n of the credit axis, composing C13's refine_n). *)
+   model Model/Chain3d.v on a triple of credit axes, rates = the generated box mass mass_3d of C12 over Q); refined credit grids (wave 7):
+   C19_credit_refined_boundary (refine^n of the credit axis, composing C13's refine_n: the cell boundary is a - eps / 2^n),
+   C19_refined_gap_1d, C19_rate_equals_union_refined_2d, C19_rate_equals_theta_refined_2d.
+   SCOPE of the d = 2 / d = 3 headlines: their hypotheses tails_proper / truncated are discharged ONLY for dyadic step margins with the
+   independent or the completely dependent copula (C19_rate_equals_theta_step_models: the hypotheses become a boolean the correspondence
+   evaluates on every case); for every other model they are stated hypotheses. *)
 From Coq Require Import List Arith Bool Reals QArith Lra.
-From RV Require Import Base.RB Base.ExtNum Model.Copula Gen.GenC12Mass Model.MassNd Gen.GenC19Theta Gen.GenC19Spread Model.Credit
-  Proofs.C12_Mass Proofs.C12_Family Proofs.C12_Nonneg Proofs.C11_Copula Proofs.C11_Clayton Proofs.C11_Increasing Proofs.C11_Dep3 Proofs.C19_Credit Proofs.C19_Spread Model.Grid Model.Chain Proofs.C01_Chain Proofs.C13_Grid Proofs.C19_Rate Proofs.C19_RateCredit Proofs.C01_Chain2d Proofs.C19_Rate2d Proofs.C19_Theta2d Proofs.C19_StepTails Proofs.C19_Bracket
+From RV Require Import Base.QB Base.RB Base.ExtNum Model.Copula Gen.GenC12Mass Model.MassNd Gen.GenC19Theta Gen.GenC19Spread Model.Credit
+  Proofs.C12_Mass Proofs.C12_Family Proofs.C12_Nonneg Proofs.C11_Copula Proofs.C11_Clayton Proofs.C11_Increasing Proofs.C11_Dep3 Proofs.C19_Credit Proofs.C19_Spread Model.Grid Model.Chain Proofs.C01_Chain Proofs.C13_Grid Proofs.C19_Rate Proofs.C19_RateCredit Proofs.C01_Chain2d Proofs.C19_Rate2d Proofs.C19_Theta2d Proofs.C19_StepTails Proofs.C19_Bracket Proofs.C19_Refine Proofs.C19_StepCases
   Model.Chain3d Proofs.C01_Chain3d Proofs.C19_Rate3d Proofs.C19_Theta3d Proofs.C19_StepTails3.
 Import ListNotations.
 Open Scope R_scope.
@@ -191,6 +195,58 @@ Theorem C19_rate_equals_theta_2d : forall (U1 : nat -> ext Q -> Q) (UI : idx -> 
   (default_rate2 amid (box_mass2 U1 UI) xs ys 4 a1 a2 == th2 QNum U1 UI (Fin a1) (Fin a2))%Q.
 Proof. exact rate_equals_theta_credit_2d. Qed.
 
+(* refined credit grids (CTMCGrid.refine applied n+1 times to the level-0 credit axis; C13: refine_axis_n = the np.insert loop, admissible with
+   origin 2^(n+1) * 4 and step h / 2^(n+1)).  The gap [a - eps, a + eps] is interpolated linearly, so the threshold a is the state of index
+   m = 3 * 2^n, the states below the threshold are EXACTLY the first m (the test x_i < a on the values = the test i < m on the indices), and
+   the cell boundary after the last of them is b = a - eps / 2^(n+1), strictly between a - eps and a.  pw2 k is 2^k as a rational. *)
+Theorem C19_credit_refined_boundary : forall l a h r sym xs o n, credit_axis l a h r sym = Some (xs, o) ->
+  let ys := refine_axis_n amid (S n) xs in let m := (3 * 2 ^ n)%nat in let b := (a - credit_eps l a h / pw2 (S n))%Q in
+  admissible ys (2 ^ S n * 4) (h / pw2 (S n)) /\ headq ys = l /\ lastq ys = r
+  /\ (1 <= m <= 2 ^ S n * 4)%nat /\ (m < length ys)%nat
+  /\ (nthq ys m == a)%Q
+  /\ (forall i, (i < length ys)%nat -> Qltb (nthq ys i) a = (i <? m)%nat)
+  /\ (cell_hi amid ys (m - 1) == b)%Q /\ (b < a)%Q /\ (a - credit_eps l a h < b)%Q.
+Proof. exact credit_refined_boundary. Qed.
+
+(* d = 1 on refined credit grids: the `bnd` of C19_rate_equals_theta_partial is a - eps / 2^(n+1): the summed rates of the 3 * 2^n states below
+   the threshold are the mass of [l, b) = theta(b) of the truncated measure = theta(a) minus the mass of the slab [b, a) *)
+Theorem C19_refined_gap_1d : forall (mass : Q -> Q -> Q),
+  (forall a b c, (a <= b)%Q -> (b <= c)%Q -> ((c < 0)%Q \/ (0 < a)%Q) -> (mass a c == mass a b + mass b c)%Q) ->
+  (forall a a' b b', (a == a')%Q -> (b == b')%Q -> (mass a b == mass a' b')%Q) ->
+  forall l a h r sym xs o n, credit_axis l a h r sym = Some (xs, o) ->
+  let ys := refine_axis_n amid (S n) xs in let b := (a - credit_eps l a h / pw2 (S n))%Q in
+  (qsum (map (fun k => mass (cell_lo amid ys k) (cell_hi amid ys k)) (seq 0 (3 * 2 ^ n))) == mass l b)%Q
+  /\ (qsum (map (fun k => mass (cell_lo amid ys k) (cell_hi amid ys k)) (seq 0 (3 * 2 ^ n))) == mass l a - mass b a)%Q.
+Proof. exact rate_refined_credit_1d. Qed.
+
+(* d = 2 on refined credit grids, any additive rectangle mass: C19_default_rate_2d_any_axes instantiated at refine^(n+1) of a pair of credit axes
+   with mx = my = 3 * 2^n (C19_credit_refined_boundary supplies every hypothesis): the summed rates of the states below the thresholds (region
+   defined on the state VALUES) are the mass of the region bounded by the cell boundaries b_i = a_i - eps_i / 2^(n+1) *)
+Theorem C19_rate_equals_union_refined_2d : forall (mass2 : Q * Q -> Q * Q -> Q),
+  (forall a1 b1 c1 y1 y2, (a1 <= b1)%Q -> (b1 <= c1)%Q -> avoids (a1, y1) (c1, y2) ->
+     (mass2 (a1, y1) (c1, y2) == mass2 (a1, y1) (b1, y2) + mass2 (b1, y1) (c1, y2))%Q) ->
+  (forall x1 x2 a2 b2 c2, (a2 <= b2)%Q -> (b2 <= c2)%Q -> avoids (x1, a2) (x2, c2) ->
+     (mass2 (x1, a2) (x2, c2) == mass2 (x1, a2) (x2, b2) + mass2 (x1, b2) (x2, c2))%Q) ->
+  (forall a1 a2 b1 b2 a1' a2' b1' b2', (a1 == a1')%Q -> (a2 == a2')%Q -> (b1 == b1')%Q -> (b2 == b2')%Q ->
+     (mass2 (a1, a2) (b1, b2) == mass2 (a1', a2') (b1', b2'))%Q) ->
+  forall l1 a1 r1 l2 a2 r2 h sym xs ys o1 o2 n,
+  credit_axis l1 a1 h r1 sym = Some (xs, o1) -> credit_axis l2 a2 h r2 sym = Some (ys, o2) ->
+  let xs' := refine_axis_n amid (S n) xs in let ys' := refine_axis_n amid (S n) ys in
+  let b1 := (a1 - credit_eps l1 a1 h / pw2 (S n))%Q in let b2 := (a2 - credit_eps l2 a2 h / pw2 (S n))%Q in
+  (default_rate2 amid mass2 xs' ys' (2 ^ S n * 4) a1 a2 == mass2 (l1, l2) (b1, r2) + mass2 (b1, l2) (r1, b2))%Q
+  /\ (default_rate2 amid mass2 xs' ys' (2 ^ S n * 4) a1 a2 == mass2 (l1, l2) (b1, r2) + mass2 (l1, l2) (r1, b2) - mass2 (l1, l2) (b1, b2))%Q.
+Proof. exact rate_equals_union_refined_2d. Qed.
+
+(* d = 2 on refined credit grids, composed with the generated mass and the generated theta: the default-region rate EQUALS theta AT THE CELL
+   BOUNDARIES (b1, b2), b_i < a_i -- this is what the implementation oracle of levels 1-2 compares, now a theorem and a Coq case group *)
+Theorem C19_rate_equals_theta_refined_2d : forall (U1 : nat -> ext Q -> Q) (UI : idx -> list (ext Q) -> Q) l1 a1 r1 l2 a2 r2 h sym xs ys o1 o2 n,
+  credit_axis l1 a1 h r1 sym = Some (xs, o1) -> credit_axis l2 a2 h r2 sym = Some (ys, o2) ->
+  tails_proper2 U1 UI -> truncated2 U1 UI l1 r1 l2 r2 ->
+  let xs' := refine_axis_n amid (S n) xs in let ys' := refine_axis_n amid (S n) ys in
+  let b1 := (a1 - credit_eps l1 a1 h / pw2 (S n))%Q in let b2 := (a2 - credit_eps l2 a2 h / pw2 (S n))%Q in
+  (default_rate2 amid (box_mass2 U1 UI) xs' ys' (2 ^ S n * 4) a1 a2 == th2 QNum U1 UI (Fin b1) (Fin b2))%Q /\ (b1 < a1)%Q /\ (b2 < a2)%Q.
+Proof. exact rate_equals_theta_refined_2d. Qed.
+
 (* the headline clause, d = 3, part 1: the 3-d chain of C01 (Model/Chain3d.v q_entry3: the rate of a state is the box mass of the product of
    its 1-d cells between arithmetic mid-points) on a triple of level-0 credit axes (C13's credit_axis), for ANY box mass that is additive
    under a split of any one coordinate on boxes avoiding the origin (C01's hypotheses; no positivity needed): the summed rates of the
@@ -253,6 +309,31 @@ Theorem C19_rate_equals_theta_3d : forall (U1 : nat -> ext Q -> Q) (UI : idx -> 
   (default_rate3 amid (box_mass3 U1 UI) xs ys zs 4 a1 a2 a3 == th3 QNum U1 UI (Fin a1) (Fin a2) (Fin a3))%Q.
 Proof. exact rate_equals_theta_credit_3d. Qed.
 
+(* SCOPE of the hypotheses of the d = 2 / d = 3 headlines (audit 4, top-10 #10): they are discharged for step margins with the independent or
+   the completely dependent copula and for nothing else.  For that class: tails_proper is a theorem, truncated follows from the vanishing of the
+   marginal tails at the truncation bounds, which is the BOOLEAN step_truncated2b / step_truncated3b -- evaluated by the correspondence on every
+   chain2d / chain3d / refined2d case -- and the headlines (level 0 for d = 2, 3; refined grids for d = 2) hold with no other hypothesis. *)
+Theorem C19_rate_equals_theta_step_models : forall (c : copula_kind) (M : list (list (Q * Q * Q))),
+  (forall l1 r1 l2 r2, step_truncated2b M l1 r1 l2 r2 = true ->
+     (tails_proper2 (step_U1 M) (step_UI c M) /\ truncated2 (step_U1 M) (step_UI c M) l1 r1 l2 r2) /\
+     forall a1 a2 h sym xs ys o1 o2, credit_axis l1 a1 h r1 sym = Some (xs, o1) -> credit_axis l2 a2 h r2 sym = Some (ys, o2) ->
+       (default_rate2 amid (box_mass2 (step_U1 M) (step_UI c M)) xs ys 4 a1 a2 == th2 QNum (step_U1 M) (step_UI c M) (Fin a1) (Fin a2))%Q /\
+       forall n, (default_rate2 amid (box_mass2 (step_U1 M) (step_UI c M)) (refine_axis_n amid (S n) xs) (refine_axis_n amid (S n) ys) (2 ^ S n * 4) a1 a2
+                  == th2 QNum (step_U1 M) (step_UI c M) (Fin (a1 - credit_eps l1 a1 h / pw2 (S n))) (Fin (a2 - credit_eps l2 a2 h / pw2 (S n))))%Q) /\
+  (forall l1 r1 l2 r2 l3 r3, step_truncated3b M l1 r1 l2 r2 l3 r3 = true ->
+     (tails_proper3 (step_U1 M) (step_UI c M) /\ truncated3 (step_U1 M) (step_UI c M) l1 r1 l2 r2 l3 r3) /\
+     forall a1 a2 a3 h sym xs ys zs o1 o2 o3,
+       credit_axis l1 a1 h r1 sym = Some (xs, o1) -> credit_axis l2 a2 h r2 sym = Some (ys, o2) -> credit_axis l3 a3 h r3 sym = Some (zs, o3) ->
+       (default_rate3 amid (box_mass3 (step_U1 M) (step_UI c M)) xs ys zs 4 a1 a2 a3 == th3 QNum (step_U1 M) (step_UI c M) (Fin a1) (Fin a2) (Fin a3))%Q).
+Proof.
+  intros c M. split.
+  - intros l1 r1 l2 r2 B. split; [apply step_hypotheses2; exact B|]. intros a1 a2 h sym xs ys o1 o2 Hx Hy. split.
+    + eapply rate_equals_theta_step_2d; eassumption.
+    + intros n. eapply rate_equals_theta_step_refined_2d; eassumption.
+  - intros l1 r1 l2 r2 l3 r3 B. split; [apply step_hypotheses3; exact B|]. intros a1 a2 a3 h sym xs ys zs o1 o2 o3 Hx Hy Hz.
+    eapply rate_equals_theta_step_3d; eassumption.
+Qed.
+
 (* the implied-threshold objective composed with C19_monotone (d = 1): with the generated theta of real tails of a non-negative
    measure, cds_spread(a) - target is non-decreasing in the (negative) threshold *)
 Theorem C19_threshold_objective_monotone : forall (U1 : nat -> ext R -> R) (target rec : R), rtails_ok U1 -> rec <= 1 ->
@@ -265,11 +346,11 @@ Proof.
   split; assumption.
 Qed.
 
-(* implied_cds_threshold hands brentq the bracket (-10, -h0).  With the generated objective on the generated theta of real tails of a
-   non-negative measure: over the bracket the objective stays between its end values; a threshold in the bracket that reproduces the
-   target forces the sign condition f(-10) f(-h0) <= 0 (brentq's precondition); and without a sign change NO threshold in the bracket
-   reproduces the target (brentq's ValueError is then the right answer).  That a sign change yields a root needs continuity of the
-   tail integral (not assumed here) and brentq itself (not modelled). *)
+(* implied_cds_threshold hands brentq the bracket (-10, -h0).  A SHORT COROLLARY of C19_threshold_objective_monotone (6 lines; audit 4, B10): over
+   the bracket the objective stays between its end values; hence a threshold in the bracket that reproduces the target forces the sign
+   condition f(-10) f(-h0) <= 0 (brentq's precondition), and without a sign change NO threshold in the bracket reproduces the target
+   (brentq's ValueError is then the right answer).  It does NOT establish a sign change, and a sign change alone gives no root: see
+   C19_threshold_bracket_root (continuity hypothesis) and C19_threshold_bracket_needs_continuity (counterexample).  brentq itself is not modelled. *)
 Theorem C19_threshold_bracket : forall (U1 : nat -> ext R -> R) (target rec h0 : R), rtails_ok U1 -> rec <= 1 -> 0 < h0 ->
   let f := implied_threshold_fun R (fun x => th1 RNum U1 (Fin x)) target rec in
   implied_threshold_fun_bracket h0 = (-10, - h0) /\
@@ -278,13 +359,34 @@ Theorem C19_threshold_bracket : forall (U1 : nat -> ext R -> R) (target rec h0 :
   (0 < f (-10) * f (- h0) -> forall a, -10 <= a <= - h0 -> f a <> 0).
 Proof. intros U1 target rec h0 Tok Hr Hh f. apply threshold_bracket; assumption. Qed.
 
-(* non-vacuity of rtails_ok (C19_monotone, C19_threshold_objective_monotone, C19_threshold_bracket): the two-sided exponential measure
-   exp(-|x|) dx has theta(a) = exp(a); the target spread (1 - 2/5) exp(-1) is reproduced by the threshold -1 inside the bracket (-10, -1/20) *)
+(* the missing direction, under a continuity hypothesis (intermediate value theorem): if the marginal tail integral is continuous at every point
+   of the bracket, brentq's sign test f(-10) f(-h0) <= 0 passes EXACTLY when some threshold of the bracket reproduces the target spread.  The
+   hypothesis is discharged for the two-sided exponential measure (C19_threshold_nonvacuous); it fails for measures with atoms. *)
+Theorem C19_threshold_bracket_root : forall (U1 : nat -> ext R -> R) (target rec h0 : R), rtails_ok U1 -> rec <= 1 -> 0 < h0 < 10 ->
+  (forall a, -10 <= a <= - h0 -> continuity_pt (fun x => U1 0%nat (Fin x)) a) ->
+  let f := implied_threshold_fun R (fun x => th1 RNum U1 (Fin x)) target rec in
+  (f (-10) * f (- h0) <= 0 -> exists a, -10 <= a <= - h0 /\ f a = 0) /\
+  (f (-10) * f (- h0) <= 0 <-> exists a, -10 <= a <= - h0 /\ f a = 0).
+Proof.
+  intros U1 target rec h0 Tok Hr Hh C f. split; [apply threshold_bracket_root; assumption|apply threshold_bracket_iff; assumption].
+Qed.
+
+(* continuity cannot be dropped: a unit atom at -1 satisfies rtails_ok; with target 1/2, recovery 0 and h0 = 1/20 the objective changes sign over
+   the bracket and vanishes nowhere on it (brentq would return a point that does not reproduce the target) *)
+Theorem C19_threshold_bracket_needs_continuity :
+  let f := implied_threshold_fun R (fun x => th1 RNum atom_tail (Fin x)) (1 / 2) 0 in
+  rtails_ok atom_tail /\ f (-10) * f (- (1 / 20)) < 0 /\ forall a, -10 <= a <= - (1 / 20) -> f a <> 0.
+Proof. exact threshold_bracket_needs_continuity. Qed.
+
+(* non-vacuity of rtails_ok and of the continuity hypothesis (C19_monotone, C19_threshold_objective_monotone, C19_threshold_bracket,
+   C19_threshold_bracket_root): the two-sided exponential measure exp(-|x|) dx has theta(a) = exp(a), its tail integral is continuous at every
+   negative threshold; the target spread (1 - 2/5) exp(-1) is reproduced by the threshold -1 inside the bracket (-10, -1/20) *)
 Example C19_threshold_nonvacuous :
   rtails_ok exp_tail /\ (forall a, a < 0 -> th1 RNum exp_tail (Fin a) = exp a) /\
+  (forall a, -10 <= a <= - (1 / 20) -> continuity_pt (fun x => exp_tail 0%nat (Fin x)) a) /\
   implied_threshold_fun R (fun x => th1 RNum exp_tail (Fin x)) ((1 - 2 / 5) * exp (-1)) (2 / 5) (-1) = 0 /\ -10 <= -1 <= - (1 / 20).
 Proof.
-  split; [exact exp_tail_ok|]. split; [exact exp_tail_theta|]. split; [|lra].
+  split; [exact exp_tail_ok|]. split; [exact exp_tail_theta|]. split; [intros a Ha; apply exp_tail_continuous; lra|]. split; [|lra].
   unfold implied_threshold_fun, cds_spread. rewrite exp_tail_theta by lra. lra.
 Qed.
 
@@ -300,7 +402,7 @@ Proof. vm_compute. repeat split. Qed.
 
 (* non-vacuity of the d = 2 headline: step margins on [-2,2] and [-1,1] with the completely dependent copula satisfy BOTH hypotheses
    (tails_proper2 by theorem for every pair of step margins, truncated2 from the four vanishing marginal tails), the symmetric credit
-   axes exist, and the common value of the summed rates (81 states, 45 of them in the default region) and of the generated theta is 3/2;
+   axes exist, and the common value of the summed rates (81 states, 81 - 49 = 32 of them in the default region) and of the generated theta is 3/2;
    the Lebesgue rectangle mass satisfies the hypotheses of the abstract theorem (it is additive everywhere) *)
 Example C19_rate_2d_nonvacuous :
   let U1 := step_U1 ex2_margins in let UI := step_UI Dep ex2_margins in
@@ -333,6 +435,23 @@ Proof.
   split; [vm_compute; reflexivity|]. vm_compute. repeat split.
 Qed.
 
+(* non-vacuity of the refined-grid theorems: the same model on refine^1 and refine^2 of the credit axes (17 and 33 points per axis): the decidable
+   hypothesis holds, the rate defined on the state values, the rate defined on the indices (3 * 2^n default states per axis) and the generated theta
+   at the cell boundaries a_i - eps_i / 2^(n+1) (eps = 3/8, 1/8) coincide: 21/16 (level 1), 45/32 (level 2) -- below the level-0 value 3/2 *)
+Example C19_rate_2d_refined_nonvacuous :
+  let U1 := step_U1 ex2_margins in let UI := step_UI Dep ex2_margins in
+  let xs := credit_values (-2) (-1) (1#4) 2 true in let ys := credit_values (-1) (-(1#2)) (1#4) 1 true in
+  step_truncated2b ex2_margins (-2) 2 (-1) 1 = true /\
+  credit_axis (-2) (-1) (1#4) 2 true = Some (xs, 4%nat) /\ credit_axis (-1) (-(1#2)) (1#4) 1 true = Some (ys, 4%nat) /\
+  Qeq_bool (credit_eps (-2) (-1) (1#4)) (3#8) = true /\ Qeq_bool (credit_eps (-1) (-(1#2)) (1#4)) (1#8) = true /\
+  Qeq_bool (default_rate2 amid (box_mass2 U1 UI) (refine_axis_n amid 1 xs) (refine_axis_n amid 1 ys) 8 (-1) (-(1#2))) (21#16) = true /\
+  Qeq_bool (default_rate2_idx amid (box_mass2 U1 UI) (refine_axis_n amid 1 xs) (refine_axis_n amid 1 ys) 8 3 3) (21#16) = true /\
+  Qeq_bool (th2 QNum U1 UI (Fin (-1 - (3#8) / pw2 1)) (Fin (-(1#2) - (1#8) / pw2 1))) (21#16) = true /\
+  Qeq_bool (default_rate2 amid (box_mass2 U1 UI) (refine_axis_n amid 2 xs) (refine_axis_n amid 2 ys) 16 (-1) (-(1#2))) (45#32) = true /\
+  Qeq_bool (default_rate2_idx amid (box_mass2 U1 UI) (refine_axis_n amid 2 xs) (refine_axis_n amid 2 ys) 16 6 6) (45#32) = true /\
+  Qeq_bool (th2 QNum U1 UI (Fin (-1 - (3#8) / pw2 2)) (Fin (-(1#2) - (1#8) / pw2 2))) (45#32) = true.
+Proof. vm_compute. repeat split. Qed.
+
 Print Assumptions C19_theta_is_union_mass.
 Print Assumptions C19_monotone.
 Print Assumptions C19_monotone_modelled.
@@ -343,12 +462,20 @@ Print Assumptions C19_rate_equals_theta_credit_1d.
 Print Assumptions C19_rate_equals_union_mass_2d.
 Print Assumptions C19_default_rate_2d_any_axes.
 Print Assumptions C19_rate_equals_theta_2d.
+Print Assumptions C19_credit_refined_boundary.
+Print Assumptions C19_refined_gap_1d.
+Print Assumptions C19_rate_equals_union_refined_2d.
+Print Assumptions C19_rate_equals_theta_refined_2d.
 Print Assumptions C19_rate_equals_union_mass_3d.
 Print Assumptions C19_default_rate_3d_any_axes.
 Print Assumptions C19_rate_equals_theta_3d.
+Print Assumptions C19_rate_equals_theta_step_models.
 Print Assumptions C19_threshold_objective_monotone.
 Print Assumptions C19_threshold_bracket.
+Print Assumptions C19_threshold_bracket_root.
+Print Assumptions C19_threshold_bracket_needs_continuity.
 Print Assumptions C19_threshold_nonvacuous.
 Print Assumptions C19_nonvacuous.
 Print Assumptions C19_rate_2d_nonvacuous.
 Print Assumptions C19_rate_3d_nonvacuous.
+Print Assumptions C19_rate_2d_refined_nonvacuous.
